@@ -6,6 +6,6 @@ cd /verif
 ls seeded | grep -E '^C[0-9]+-[0-9]+$' | while read id; do
   grep -q '"status": "obsolete' seeded/$id/meta.json 2>/dev/null && continue
   with=$(python3 -c "import json;print(json.load(open('seeded/$id/meta.json')).get('run_with',''))" 2>/dev/null)
-  echo "$id $TIER $with"
+  if [ -n "$with" ]; then echo "$id $TIER $with"; else echo "$id $TIER"; fi
 done | xargs -P 4 -L1 tools/run_seed.sh 2>&1 | grep -E '^C[0-9]+-[0-9]+' | tee seeded/results-$TIER.txt.tmp
 sort -V seeded/results-$TIER.txt.tmp > seeded/results-$TIER.txt; rm -f seeded/results-$TIER.txt.tmp
